@@ -46,13 +46,13 @@ def snake(name):
     return re.sub(r"(?<!^)(?=[A-Z])", "_", name).lower()
 
 
-def run(F, R, tier):
-    # ---------------- C08-V ------------------------------------------------
+def visitor_coverage(F, R, tag="C08-V", pid="C08"):
+    """every syntax that carries a module specifier has a handler, and handlers recurse"""
     overrides = {}
     for b in F.bodies:
         if b.get("self_adt") == DC and (b.get("impl_trait") or "").endswith("Visit"):
             overrides[b["path"].split("::")[-1]] = b
-    R.floor("C08-V DependencyCollector visit overrides", len(overrides), 8)
+    R.floor(tag + " DependencyCollector visit overrides", len(overrides), 8)
     carriers = []
     for a in F.extern_adts:
         if a["kind"] != "struct" or a.get("crate") != "swc_ecma_ast":
@@ -60,23 +60,29 @@ def run(F, R, tier):
         for f in a["variants"][0]["fields"]:
             if f["name"] == "src" and "Str" in f["ty"]:
                 carriers.append(a["name"])
-    R.floor("C08-V `src`-carrying node types in swc_ecma_ast", len(carriers), 3)
+    R.floor(tag + " `src`-carrying node types in swc_ecma_ast", len(carriers), 3)
     R.analysed["src_carrying_node_types"] = sorted(carriers)
     for c in sorted(set(carriers)):
         m = "visit_" + snake(c)
-        R.ob("C08-V", "node type %s (has a module-specifier `src`) is handled by %s" % (c, m), m in overrides,
+        R.ob(tag, "node type %s (has a module-specifier `src`) is handled by %s" % (c, m), m in overrides,
              "swc_ecma_ast::%s carries a module specifier but DependencyCollector has no %s override: that syntax produces no dependency" % (c, m), "src/ast/dep.rs")
     for c, m in CURATED.items():
-        R.ob("C08-V", "specifier carrier %s is handled by %s" % (c, m), m in overrides, "DependencyCollector lost its %s override" % m, "src/ast/dep.rs")
+        R.ob(tag, "specifier carrier %s is handled by %s" % (c, m), m in overrides, "DependencyCollector lost its %s override" % m, "src/ast/dep.rs")
     for m, b in sorted(overrides.items()):
         if m in LEAVES:
-            R.ob("C08-V", "%s is a leaf handler (reviewed)" % m, True, LEAVES[m], nontrivial=False)
+            R.ob(tag, "%s is a leaf handler (reviewed)" % m, True, LEAVES[m], nontrivial=False)
             continue
         tg = lambda n: n.get("k") == "MethodCall" and n["name"] == "visit_children_with"
         bad, _ = must_pass(F, b["body"]["value"], tg)
-        R.ob("C08-V", "%s recurses into its children on every path" % m, not bad,
+        R.ob(tag, "%s recurses into its children on every path" % m, not bad,
              "a path through %s returns without `visit_children_with(self)`: dependency syntax nested below this node (e.g. an import() inside the arguments of another import()) is never visited" % m,
-             where(bad[0][1]) if bad else b["file"], key="C08|C08-V|%s|no-recursion" % m)
+             where(bad[0][1]) if bad else b["file"], key="%s|%s|%s|no-recursion" % (pid, tag, m))
+    return overrides
+
+
+def run(F, R, tier):
+    # ---------------- C08-V ------------------------------------------------
+    overrides = visitor_coverage(F, R)
     # every override records through self.items.push (handlers that produce a descriptor)
     for m in ("visit_import_decl", "visit_named_export", "visit_export_all", "visit_ts_import_type", "visit_call_expr", "visit_ts_import_equals_decl", "visit_ts_module_decl"):
         b = overrides.get(m)
